@@ -605,6 +605,12 @@ func (w *c02World) op(f []string) string {
 			return "skip"
 		}
 		w.comp.handleSubscriberTerminate(events.Event{Data: &events.SubscriberTerminateEvent{SessionID: sess.SessionID, Reason: "c02"}})
+	case "BE": // lease expiry: the reaper of cleanupSessions takes the subscriber's session
+		sess := w.live(s)
+		if sess == nil {
+			return "skip"
+		}
+		tag = w.reap(sess)
 	case "BX": // lease of the subscriber's MAC expires in the DHCPv4 provider
 		w.prov.VerifC02Age(s.mac.String())
 	default:
@@ -612,6 +618,55 @@ func (w *c02World) op(f []string) string {
 	}
 	w.settle()
 	return fmt.Sprintf("%s %s aaa=%d rec=%s", tag, strings.Join(append(w.replies(mark), "."), ","), len(w.bus.aaa)-amark, w.rec(s))
+}
+
+// reap runs what one tick of cleanupSessions does for this session.  The loop body sits behind a 5-minute ticker and
+// cannot be called, so it is TRANSCRIBED here (internal/ipoe/session.go cleanupSessions; keep in step with it).  The
+// decision whether the session is reaped is the real one: the session's clocks are moved into the past and
+// sessionPastLease / the half-open idle rule are evaluated as the loop does.
+func (w *c02World) reap(sess *SessionState) string {
+	c := w.comp
+	past := time.Now().Add(-1000 * time.Hour)
+	sess.mu.Lock()
+	sess.LastSeen = past
+	if !sess.BoundAt.IsZero() {
+		sess.BoundAt = past
+	}
+	if !sess.IPv6BoundAt.IsZero() {
+		sess.IPv6BoundAt = past
+	}
+	now := time.Now()
+	var doReap bool
+	if sess.State == "bound" {
+		doReap = c.sessionPastLease(sess, now)
+	} else {
+		doReap = now.Sub(sess.LastSeen) > halfOpenIdleTimeout
+	}
+	sess.mu.Unlock()
+	if !doReap {
+		return "be-kept"
+	}
+	sess.mu.Lock()
+	sess.Closing = true
+	sess.mu.Unlock()
+	c.xidIndex.Delete(sess.XID)
+	c.sessions.Delete(c.makeSessionKeyV4(sess.MAC, sess.OuterVLAN, sess.InnerVLAN))
+	c.sessionIndex.Delete(sess.SessionID)
+	c.removeSessionFromIndexes(sess)
+	if sess.IPv4 != nil {
+		allocator.GetGlobalRegistry().ReleaseIP(sess.IPv4)
+	}
+	if sess.IPv6Address != nil {
+		allocator.GetGlobalRegistry().ReleaseIANAByIP(sess.IPv6Address)
+	}
+	if sess.IPv6Prefix != nil {
+		allocator.GetGlobalRegistry().ReleasePDByPrefix(sess.IPv6Prefix)
+	}
+	for _, p := range c.dhcp4Providers {
+		p.ReleaseLease(sess.MAC.String())
+	}
+	c.deleteSessionCheckpoint(sess.SessionID)
+	return "be"
 }
 
 // what the component's session of the subscriber records: IPv4/IPv6 address/delegated prefix, or "gone"
